@@ -209,6 +209,19 @@ class _Return(Exception):
         self.v = v
 
 
+class _GenTruncated(Exception):
+    """An unbounded generator function was evaluated far enough (see _TruncatedGen)."""
+
+
+class _TruncatedGen(list):
+    """The first elements of an unbounded generator (``for n in count(): yield ...``).  Generator functions are
+    evaluated eagerly; an unbounded one is cut after GEN_CAP elements.  Consumers that take a bounded prefix (islice,
+    next, zip with a finite partner) read it; consuming it entirely is an analysis error."""
+
+
+GEN_CAP = 48
+
+
 class _Break(Exception):
     pass
 
@@ -737,6 +750,8 @@ class Symex:
         return self._iterate(it, node)
 
     def _iterate(self, it, node):
+        if isinstance(it, _TruncatedGen):
+            self.unsupported(node, "an unbounded generator is consumed entirely")
         if isinstance(it, dict):
             return list(it.keys())
         if isinstance(it, _CountSeq):
@@ -765,6 +780,8 @@ class Symex:
             n += 1
             if n > 4096:
                 self.unsupported(s, "loop bound exceeded")
+            if isinstance(seq, _CountSeq) and any(len(fr.get("$yield", ())) >= GEN_CAP for fr in self.frames):
+                raise _GenTruncated()
             self.assign(s.target, x)
             try:
                 self.block(s.body)
@@ -1941,6 +1958,10 @@ class Symex:
                 r = None
             except _Return as r_:
                 r = r_.v
+            except _GenTruncated:
+                if not (is_gen and len(frame.get("$yield", ())) >= GEN_CAP):
+                    raise
+                return _TruncatedGen(frame["$yield"])
             if is_gen:
                 return frame.get("$yield", [])
             return r
@@ -2100,6 +2121,13 @@ class Symex:
             if len(args) > 1:
                 return args[1]
             raise Raised("StopIteration", None, node)
+        if short == "islice" and args and isinstance(args[0], _TruncatedGen) and not kw \
+                and all(isinstance(a, int) for a in args[1:]) and 2 <= len(args) <= 4:
+            stop = args[1] if len(args) == 2 else args[2]
+            if stop is None or stop > len(args[0]):
+                self.unsupported(node, "islice beyond the evaluated prefix of an unbounded generator")
+            import itertools
+            return list(itertools.islice(list.__iter__(args[0]), *args[1:]))
         if short in ("zip_longest", "islice", "pairwise") and not any(isinstance(a, (T, Obj)) for a in args):
             import itertools
             seqs = [self.iterate(a, node) if not isinstance(a, (int, type(None))) else a for a in args]
